@@ -211,3 +211,113 @@ Fixpoint print_val (v : optval) : list token :=
                     | x :: r => print_val x ++ TComma :: elems r
                     end) items ++ [TRBrack]
   end.
+
+(* the same, with the two inner loops as named functions (equal to the inner fixes: proofs file) *)
+Fixpoint print_fields (l : list (ident * optval)) : list token :=
+  match l with
+  | [] => []
+  | (k, x) :: r => TIdent k :: TColon :: print_val x ++ print_fields r
+  end.
+
+Fixpoint print_elems (l : list optval) : list token :=
+  match l with
+  | [] => []
+  | [x] => print_val x
+  | x :: r => print_val x ++ TComma :: print_elems r
+  end.
+
+(* ------------------------------------------------------------------ *)
+(* a parser for exactly that token subset (the text-format value grammar the option printer uses).
+   Leaves stay tokens: which scalar a leaf denotes is decided by the field's type (literal layer). *)
+Inductive rawval :=
+| RScalar (t : token)
+| RMsg (fields : list (ident * rawval))
+| RList (items : list rawval).
+
+Fixpoint raw_of (v : optval) : rawval :=
+  match v with
+  | OScalar s => RScalar (print_scalar s)
+  | OMsg fs => RMsg ((fix go (l : list (ident * optval)) : list (ident * rawval) :=
+                        match l with [] => [] | (k, x) :: r => (k, raw_of x) :: go r end) fs)
+  | OList items => RList ((fix go (l : list optval) : list rawval :=
+                             match l with [] => [] | x :: r => raw_of x :: go r end) items)
+  end.
+
+Fixpoint raw_fields (l : list (ident * optval)) : list (ident * rawval) :=
+  match l with [] => [] | (k, x) :: r => (k, raw_of x) :: raw_fields r end.
+Fixpoint raw_elems (l : list optval) : list rawval :=
+  match l with [] => [] | x :: r => raw_of x :: raw_elems r end.
+
+Definition is_scalar_token (t : token) : bool :=
+  match t with TIdent _ | TLit _ => true | _ => false end.
+
+Fixpoint parse_raw (fuel : nat) (ts : list token) {struct fuel} : option (rawval * list token) :=
+  match fuel with
+  | O => None
+  | S f =>
+      match ts with
+      | TLBrace :: r =>
+          match parse_fields f r with Some (fs, rest) => Some (RMsg fs, rest) | None => None end
+      | TLBrack :: TRBrack :: r => Some (RList [], r)
+      | TLBrack :: r =>
+          match parse_raw f r with
+          | Some (x, r1) => match parse_more f r1 with Some (xs, rest) => Some (RList (x :: xs), rest) | None => None end
+          | None => None
+          end
+      | t :: r => if is_scalar_token t then Some (RScalar t, r) else None
+      | [] => None
+      end
+  end
+with parse_fields (fuel : nat) (ts : list token) {struct fuel} : option (list (ident * rawval) * list token) :=
+  match fuel with
+  | O => None
+  | S f =>
+      match ts with
+      | TRBrace :: r => Some ([], r)
+      | TIdent k :: TColon :: r =>
+          match parse_raw f r with
+          | Some (x, r1) => match parse_fields f r1 with Some (fs, rest) => Some ((k, x) :: fs, rest) | None => None end
+          | None => None
+          end
+      | _ => None
+      end
+  end
+with parse_more (fuel : nat) (ts : list token) {struct fuel} : option (list rawval * list token) :=
+  match fuel with
+  | O => None
+  | S f =>
+      match ts with
+      | TRBrack :: r => Some ([], r)
+      | TComma :: r =>
+          match parse_raw f r with
+          | Some (x, r1) => match parse_more f r1 with Some (xs, rest) => Some (x :: xs, rest) | None => None end
+          | None => None
+          end
+      | _ => None
+      end
+  end.
+
+(* printing a raw tree: the inverse direction, for idempotence *)
+Fixpoint print_raw (v : rawval) : list token :=
+  match v with
+  | RScalar t => [t]
+  | RMsg fs =>
+      TLBrace :: (fix fields (l : list (ident * rawval)) : list token :=
+                    match l with [] => [] | (k, x) :: r => TIdent k :: TColon :: print_raw x ++ fields r end) fs
+              ++ [TRBrace]
+  | RList items =>
+      TLBrack :: (fix elems (l : list rawval) : list token :=
+                    match l with [] => [] | [x] => print_raw x | x :: r => print_raw x ++ TComma :: elems r end) items
+              ++ [TRBrack]
+  end.
+
+Fixpoint size (v : optval) : nat :=
+  match v with
+  | OScalar _ => 1%nat
+  | OMsg fs => S (S ((fix go (l : list (ident * optval)) : nat := match l with [] => 0%nat | (_, x) :: r => S (size x + go r) end) fs))
+  | OList items => S (S ((fix go (l : list optval) : nat := match l with [] => 0%nat | x :: r => S (size x + go r) end) items))
+  end.
+Fixpoint size_fields (l : list (ident * optval)) : nat :=
+  match l with [] => 0%nat | (_, x) :: r => S (size x + size_fields r) end.
+Fixpoint size_elems (l : list optval) : nat :=
+  match l with [] => 0%nat | x :: r => S (size x + size_elems r) end.
